@@ -1,0 +1,6 @@
+//go:build linux && !verif
+
+package forkexec
+
+// verifChildGate is a verification hook, compiled to nothing unless the verif build tag is set
+func verifChildGate() {}
